@@ -618,6 +618,15 @@ func (t *RaftTransaction) ListPage(ctx context.Context, prefix string, after str
 		presentKeys = append(presentKeys, nextPresentEntry)
 	}
 	verifyLimit := len(presentKeys)
+	if nextPresentEntry == "" && verifyLimit > 0 {
+		// The listing ran off the end of the prefix, so "nothing follows the
+		// last entry" is part of what this transaction observed. Verifying
+		// only the entries we saw would miss an entry appended behind them
+		// by another writer; ask the verification to list one entry more, so
+		// that it comes back longer (and mismatches) if that happened. (An
+		// empty listing already verifies with limit 0, i.e., unlimited.)
+		verifyLimit++
+	}
 	listParams, contentsHash, err := createListVerificationEntry(prefix, after, verifyLimit, presentKeys)
 	if err != nil {
 		return nil, err
